@@ -71,13 +71,15 @@ CHECKS = {
         design='DESIGN.md §6 C07'),
     'C12': dict(
         technique='Lean 4 proof of history independence of the API state machine for any front end + state monitors and fresh-interpreter differential on API histories',
-        text='Lean theorems, parametric in the whole front end (parser, converters, printers): from the reset structure of the entry points every '
-             'API call gives, after ANY history of calls and from ANY process state, the result it gives in a fresh process; repetition is '
-             'idempotent; the table a call leaves behind is a function of the call alone.',
+        text='Lean theorems, parametric in the whole front end (parser, converters, printers): from the reset structure of the entry points (the '
+             'signature table is emptied, the auto-link option is in force during compile only and restored afterwards) every API call gives, '
+             'after ANY history of calls from the start state of a process, the result it gives in a fresh process — with no assumption on '
+             'how results depend on the flag; repetition is idempotent; the table a call leaves behind is a function of the call alone.',
         note='Trusted: Lean kernel; the monitors of harness/props/c12.py (every call of every history runs in a fresh interpreter with snapshots of '
              'SignatureManager.signatures, the Utility flags, DUMMY_ENTITY and the shared default arguments) which check the frame conditions the '
-             'model assumes (front end is a function of its arguments; check_syntax/cnl_to_json blind to the auto-link flag). The interpreter\'s '
-             'hash seed is exercised (random seed per history), not modelled. Two genuine defects were repaired by fix: commits c710714, 36930bb.',
+             'model assumes (front end is a function of its arguments; every call leaves the auto-link flag as it found it). The interpreter\'s '
+             'hash seed is exercised (random seed per history), not modelled. Three genuine defects were repaired by fix: commits (c710714, '
+             '36930bb and the flag restore found by the thorough tier).',
         design='DESIGN.md §6 C12'),
     'C10': dict(
         technique='Lean 4 proof of refinement to a per-sentence fold (for any sentence behaviour) + boundary-state monitors on the real objects; prefix/removal/context differential',
@@ -145,8 +147,10 @@ CHECKS = {
                   'convert_value; acceptance search with clingo.ast, the clingo grounder and telingo on real outputs',
         text='Lean theorems: for every value the grammar can deliver (number, variable, placeholder, identifier, quoted text with spaces) and '
              'every constant table, the printed term is a number, a variable, `_`, a declared constant or ONE string literal without an inner '
-             'quote; choice bounds are printed exactly when present and in the solver\'s order.',
-        note='PARTIAL: the theorems cover the term layer only. That whole programs are accepted (statement syntax, safety of invented variables, '
+             'quote; choice bounds are printed exactly when present and in the solver\'s order; every rule printed for a range-restricted '
+             'sentence of the core fragment satisfies the solver\'s safety condition (C06_core_safe; the rules are those the rule-by-rule '
+             'correspondence of C01 ties to the real output).',
+        note='PARTIAL: the theorems cover the term layer and, for the core fragment, variable safety. That whole programs are accepted (statement syntax, safety of invented variables, '
              'telingo\'s restrictions on marked atoms) is decided per run by the solvers themselves on the outputs of the wide / temporal '
              'generators, dedicated stress forms and the corpus — a search, not a proof. Trusted: Lean kernel; clingo / telingo as acceptance '
              'oracles; unit correspondence of convert_value. Known findings F12b, F15, F16, F25, F27, F28, F29 (genuine, recorded).',
@@ -160,7 +164,9 @@ CHECKS = {
              'the compiled program iff M is a model of the direct reading (every sentence respected, nothing holds without a reason) — '
              'C01_main, via Fages\' theorem proved for programs with choice rules, constraints and non-recursive aggregates; the bounds printed '
              'for each cardinality phrase mean what the phrase says (over the regenerated QUANTITY_OPERATOR callback table); corollaries for '
-             'prohibited / required / choice / closedness.',
+             'prohibited / required / choice / closedness; C01_decide: for range-restricted aggregate-free specifications and finite '
+             'interpretations, answer-set-hood is decided by the executable reading refCheckB (proved equal to RefModel), run by the driver '
+             'on clingo\'s answer sets of the real output and their neighbours.',
         note='Trusted: Lean kernel; that clingo computes the answer sets of Asp/Sem.lean `Stable` (validated per run: clingo\'s answer sets of '
              'the real output equal the models of the direct reading enumerated on the finite domains); the generator\'s resolved form of each '
              'surface sentence (checked per run by the rule-by-rule correspondence Core.compile vs the real output, ~240 specifications per '
@@ -189,13 +195,12 @@ CHECKS = {
         text='Lean theorems: C04_main (optimal answer sets of the compiled program = models of the direct reading that no such model beats, '
              'for every stratified core specification and every list of preferences); an aggregate preference costs exactly the aggregate\'s '
              'value (negated for a maximisation); a situation preference costs one unit per distinct parameter tuple for which the situation '
-             'holds; the cost of a level is a function of the interpretation; an optimal answer set is cheapest at the highest level; '
+             'holds; a variable preference costs the sum of the variable over the distinct (value, parameters) pairs; the cost of a level is a function of the interpretation; an optimal answer set is cheapest at the highest level; '
              'direction (partial: 3 of 4 phrases), sign and priority tables over the live callbacks.',
         note='PARTIAL for "as much as possible": the live callback gives it the direction of "as little as possible" (finding F3, kernel-checked '
              'witness Findings/C04.lean; pinned by an existing test). Trusted: Lean kernel; clingo\'s optimisation = Asp/Opt.lean (validated per '
              'run: clingo optN on the real output vs the optimal models of the direct reading); the generator\'s resolved form (checked per run '
-             'by the statement-by-statement correspondence). Preferences of one specification get distinct priorities; the variable form\'s cost '
-             'lemma is not proved (its weak constraint is compared syntactically and its optimum is searched).',
+             'by the statement-by-statement correspondence). Preferences of one specification get distinct priorities.',
         design='DESIGN.md §6 C04'),
 }
 
